@@ -47,6 +47,11 @@ Proof.
   exact (late_defender_fail wstep wreset winit goal detect cfg w ls0 ls s s1 s2 c a k d).
 Qed.
 
+(* a Benign agent gets no bonus and is never marked rewarded: the reward task leaves its record exactly as it is *)
+Theorem C05_benign_unpaid :
+  forall (V G : Type) (cfg : config) (b : bool) (a : @agent V G), a_role a = RBenign -> reward_agent cfg b a = a.
+Proof. intros V G cfg b a. exact (reward_agent_benign cfg b a). Qed.
+
 (* non-vacuity: two required players. An attacker succeeds (view 8 is its goal) and is paid 99 together with the first defender
    (Fail, -11); the attacker asks for the reset, the first defender says QuitGame, a second defender takes the free place in the SAME
    episode, plays one action and ends at once; the reward task runs a second time and pays it -11 with reason Fail - the attacker's
@@ -90,3 +95,4 @@ Proof. vm_compute. repeat split; reflexivity. Qed.
 Print Assumptions C04_reason_stays.
 Print Assumptions C04_defender_paid_by_outcome.
 Print Assumptions C04_late_defender.
+Print Assumptions C05_benign_unpaid.
